@@ -796,6 +796,86 @@ def run(chk):
                         if not pre and not after:
                             chk.violation(r_fs, key, "%s: `%s` is tested against its sentinel at line %d and defaulted from the current cell, but nothing in the loop body (line %d) sets it unconditionally before the test%s" % (f["q"], path, iff["l"], lp["l"], ": its variable is freshly value-initialised in every iteration, so the sentinel (a negative number) is never there and the record's explicit/defaulted distinction is lost" if fresh else " and its variable is declared outside the loop: from the second iteration on the test sees the previous cell's value, so the default of the first cell is kept for every later cell of the record"), f["file"], iff["l"])
 
+    # ---- C06.perm: the axis permutation of a completion direction
+    r_pm2 = chk.rule("C06.perm", "WellConnections.cpp directionIndices(direction): for X, Y and Z the returned triple is a permutation of the axes (0, 1, 2) whose LAST element is the axis of the completion itself (X: 0, Y: 1, Z: 2) - the first two, the perpendicular axes, may come in either order because the Peaceman radius and Kh are symmetric in them; permComponents and effectiveExtent pick components [p[0]], [p[1]], [p[2]] in that order; effectiveRadius is Peaceman's anisotropic equivalent radius (symbolic comparison)", floor=6)
+    di = [f for f in fx.fns if f["n"] == "directionIndices" and f.get("body") and f["file"].endswith("WellConnections.cpp")]
+    if len(di) != 1:
+        raise core.AnalysisBroken("directionIndices not found")
+    di = di[0]
+    sws = [n for n in walk(di["body"]) if n["k"] == "Switch"]
+    if len(sws) != 1:
+        raise core.AnalysisBroken("directionIndices: switch over the direction not found")
+    got_p = {}
+    pending = []
+    for st_ in sws[0]["body"]["c"]:
+        x = st_
+        while x.get("k") == "Case":
+            pending.append(strip(x["v"]).get("n"))
+            x = x.get("sub") or {}
+        if x.get("k") == "Return" and isinstance(x.get("e"), dict):
+            vals = [int(y["v"]) for y in walk(x["e"]) if y["k"] == "Int"]
+            for lab in pending:
+                got_p[lab] = (vals, x["l"])
+            pending = []
+    for lab, ax in (("X", 0), ("Y", 1), ("Z", 2)):
+        vals, ln = got_p.get(lab, ([], di["l"]))
+        chk.instance(r_pm2, "directionIndices:" + lab, sample=dict(direction=lab, indices=vals))
+        if sorted(vals) != [0, 1, 2] or vals[2] != ax:
+            chk.violation(r_pm2, "directionIndices:" + lab, "directionIndices(Direction::%s) returns %s; required a permutation of (0, 1, 2) ending in %d, the axis of the completion: otherwise a %s completion takes its length, its perpendicular extents and permeabilities from the wrong axes and the defaulted Kh, r0 and CF are not the Peaceman values of the cell" % (lab, vals, ax, lab), di["file"], ln)
+    for nm in ("permComponents", "effectiveExtent"):
+        pf = [f for f in fx.fns if f["n"] == nm and f.get("body") and f["file"].endswith("WellConnections.cpp")]
+        if len(pf) != 1:
+            raise core.AnalysisBroken("%s not found" % nm)
+        pf = pf[0]
+        pv = [v["n"] for n in walk(pf["body"]) if n["k"] == "Decl" for v in n["vars"] if "directionIndices(" in show(v.get("init"))]
+        arr = pf["params"][-1]["n"]
+        rets = [x for x in walk(pf["body"]) if x["k"] == "Return" and isinstance(x.get("e"), dict)]
+        picks = re.findall(r"%s\[%s\[(\d)\]\]" % (arr, pv[0] if pv else "?"), show(rets[-1]["e"])) if rets else []
+        chk.instance(r_pm2, nm, sample=dict(function=pf["q"], picks=picks))
+        if picks != ["0", "1", "2"]:
+            chk.violation(r_pm2, nm, "%s returns components %s of `%s` through the direction indices; required [p[0]], [p[1]], [p[2]] in this order" % (nm, picks, arr), pf["file"], pf["l"])
+
+    # effectiveRadius: Peaceman's equivalent radius for an anisotropic cell
+    er = [f for f in fx.fns if f["n"] == "effectiveRadius" and f.get("body") and f["file"].endswith("WellConnections.cpp")]
+    if len(er) != 1:
+        raise core.AnalysisBroken("effectiveRadius not found")
+    er = er[0]
+    from verif import symb as sy6
+    kp, dp = er["params"][0]["n"], er["params"][1]["n"]
+
+    def F6(nm, *a):
+        return sy6.S("%s(%s)" % (nm, ",".join(sy6.show_term(t) for t in a)))
+
+    def leaf6(e):
+        if e.get("k") in ("Idx", "OpCall") and len(e.get("c") or e.get("a") or []) == 2:
+            b_, i_ = [strip(x) for x in (e.get("c") or e.get("a"))]
+            if b_.get("k") == "Ref" and b_.get("n") in (kp, dp) and i_.get("k") == "Int":
+                return sy6.S("%s%d" % ("K" if b_["n"] == kp else "D", int(i_["v"])))
+        if e.get("k") == "Call" and e.get("a") is not None:
+            nm = (e.get("fn") or "").split("::")[-1]
+            if nm in ("sqrt", "pow"):
+                args = [ev6.term(a_, env6) for a_ in e["a"]]
+                if None not in args:
+                    return F6(nm, *args)
+        return None
+    ev6 = sy6.Eval(leaf6, {v["n"] for n in walk(er["body"]) if n["k"] == "Decl" for v in n["vars"]})
+    env6 = {}
+    for n in walk(er["body"]):
+        if n["k"] == "Decl":
+            for v in n["vars"]:
+                if isinstance(v.get("init"), dict):
+                    env6[v["n"]] = ev6.term(v["init"], env6)
+    rets6 = [x for x in walk(er["body"]) if x["k"] == "Return" and isinstance(x.get("e"), dict)]
+    got6 = ev6.term(rets6[-1]["e"], env6) if rets6 else None
+    K0, K1, D0, D1 = (sy6.S(x) for x in ("K0", "K1", "D0", "D1"))
+    k01, k10 = sy6.div(K0, K1), sy6.div(K1, K0)
+    num6 = F6("sqrt", sy6.add(sy6.mul(F6("sqrt", k10), sy6.mul(D0, D0)), sy6.mul(F6("sqrt", k01), sy6.mul(D1, D1))))
+    den6 = sy6.add(F6("pow", k01, sy6.S("0.25")), F6("pow", k10, sy6.S("0.25")))
+    want6 = sy6.mul(sy6.S("0.28"), sy6.div(num6, den6))
+    chk.instance(r_pm2, "effectiveRadius", sample=dict(returns=sy6.show_term(got6)))
+    if got6 is None or not sy6.same_ratio(got6, want6):
+        chk.violation(r_pm2, "effectiveRadius", "effectiveRadius returns %s; Peaceman's equivalent radius is 0.28 sqrt(sqrt(K1/K0) D0^2 + sqrt(K0/K1) D1^2) / ((K0/K1)^(1/4) + (K1/K0)^(1/4))" % sy6.show_term(got6), er["file"], er["l"])
+
     # ---- C06.stable: re-ordering an ordered connection set leaves it as it is
     r_st = chk.rule("C06.stable", "TRACK ordering (WellConnections::orderTRACK swaps the result of a nearest-connection scan into each position; every update of a well re-orders) is idempotent: the scan runs upward from the first unplaced position and replaces its candidate only on a strictly smaller key (smaller I/J distance, or equal I/J distance and strictly smaller depth difference), so of equally near connections the one already in place stays", floor=4)
     ot = fx.fn("Opm::WellConnections::orderTRACK")
